@@ -9,6 +9,7 @@ import (
 	"math/big"
 	"math/rand"
 	"path/filepath"
+	"strings"
 	"sync"
 	"time"
 
@@ -57,7 +58,7 @@ func newChecker(strict bool, cache time.Duration) *repoocsp.OCSPRevocationChecke
 
 func main() {
 	run := report.New("C05", "exploration")
-	run.Rule("cells = signer{issuer, delegated+OCSPSigning, delegated without EKU, client's own certificate, stranger with/without embedded certificate, sibling CA with/without embedded, delegate of sibling, delegate of root} x serial{this, other} x status{good, revoked, unknown} + error response statuses (bare and wrapped around valid bytes) + every single-bit flip inside tbsResponseData, the signatureAlgorithm OID and the signature of authentic ECDSA responses + truncations; each response is served to a strict checker (authentic => verdict by status; else error), to a lenient checker (else accepted, whatever the forged body says) and asked again with the responder down and a 1 h cache (cached iff authentic); non-trivial = the responder was contacted and the response reached the parser; distinct = cell / flip position")
+	run.Rule("cells = signer{issuer, delegated+OCSPSigning, delegated without EKU, client's own certificate embedded / not embedded, stranger with/without embedded certificate, sibling CA with/without embedded, delegate of sibling, delegate of root} x serial{this, other} x status{good, revoked, unknown} + error response statuses (bare and wrapped around valid bytes) + every single-bit flip inside tbsResponseData, the signatureAlgorithm OID and the signature of authentic ECDSA responses + truncations; client certificate with/without subjectKeyIdentifier presented with one or two verified chains (all four combinations for every cell of the signer matrix, in rotation elsewhere); each response is served to a strict checker (authentic => verdict by status; else error), to a lenient checker (else accepted, whatever the forged body says) and asked again with the responder down and a 1 h cache (cached iff authentic); non-trivial = the responder was contacted and the response reached the parser; distinct = cell / flip position")
 	run.Assume("reference authenticity = built by the harness: which key signed, which certificate is embedded, which serial and status were put in", "bit flips are confined to regions where every bit is signed or is the signature/algorithm OID itself (ECDSA responses carry no algorithm parameters)")
 	scratch, _ := report.Scratch("C05")
 	sut.QuietStderr(filepath.Join(scratch, "stderr.log"))
@@ -106,6 +107,7 @@ func main() {
 		{"delegate-of-sibling", delegOfSibling.Cert, delegOfSibling.Key, true, false},
 		{"delegate-of-root", delegOfRoot.Cert, delegOfRoot.Key, true, false},
 		{"client-own-certificate", nil, nil, true, false},
+		{"client-own-certificate-not-embedded", nil, nil, false, false},
 		{"stranger-imitating-issuer-name-and-keyid-embedded", imitator.Cert, imitator.Key, true, false},
 		{"stranger-imitating-issuer-name-and-keyid", imitator.Cert, imitator.Key, false, false},
 		{"stranger-imitating-issuer-with-ocspsigning-embedded", imitatorEKU.Cert, imitatorEKU.Key, true, false},
@@ -118,7 +120,7 @@ func main() {
 			tmpl.RevokedAt = time.Now().Add(-time.Hour)
 		}
 		cert, key := sg.Cert, sg.Key
-		if sg.Name == "client-own-certificate" {
+		if strings.HasPrefix(sg.Name, "client-own-certificate") {
 			cert, key = leaf.Cert, leaf.Key
 		}
 		if sg.Embed {
@@ -136,21 +138,38 @@ func main() {
 	type verdict struct {
 		strictErr, strictRev, cachedAnswer, cachedRev, lenErr, lenRev bool
 		hits2                                                         int
+		shape                                                         string
 	}
+	// the client certificate with / without subjectKeyIdentifier, presented with one verified chain or
+	// with two (the issuing CA is a trust anchor itself and also chains to the root), in rotation
+	shapeN := 0
+	forceShape := -1 // the signer matrix runs every cell in all four shapes
 	protocol := func(build func(leaf *pki.CA, serial *big.Int) []byte) verdict {
 		var v verdict
+		shapeN++
+		sh := shapeN
+		if forceShape >= 0 {
+			sh = forceShape
+		}
+		noSKI := sh%2 == 1
+		twoChains := (sh/2)%2 == 1
+		v.shape = fmt.Sprintf("leaf-ski=%v chains=%d", !noSKI, map[bool]int{false: 1, true: 2}[twoChains])
 		for pass, chk := range []*repoocsp.OCSPRevocationChecker{l.strictOn, l.strictOf} {
 			serial := pki.NextSerial()
-			leaf := w.Int.Issue(pki.CertOpts{CN: "c05 leaf", Serial: serial, OCSP: []string{l.url}})
+			leaf := w.Int.Issue(pki.CertOpts{CN: "c05 leaf", Serial: serial, OCSP: []string{l.url}, NoSKI: noSKI})
 			chain := []*x509.Certificate{leaf.Cert, w.Int.Cert, w.Root.Cert}
+			chains := [][]*x509.Certificate{chain}
+			if twoChains {
+				chains = [][]*x509.Certificate{chain[:2], chain}
+			}
 			l.set(serial, build(leaf, serial))
-			st, err := chk.IsRevoked(leaf.Cert, [][]*x509.Certificate{chain})
+			st, err := chk.IsRevoked(leaf.Cert, chains)
 			if pass == 0 {
 				v.strictErr = err != nil
 				v.strictRev = st != nil && st.Revoked
 				l.set(serial, nil)
 				h := w.OCSP.HitCount("/ocsp")
-				st2, err2 := chk.IsRevoked(leaf.Cert, [][]*x509.Certificate{chain})
+				st2, err2 := chk.IsRevoked(leaf.Cert, chains)
 				v.hits2 = w.OCSP.HitCount("/ocsp") - h
 				v.cachedAnswer = err2 == nil
 				v.cachedRev = st2 != nil && st2.Revoked
@@ -163,6 +182,7 @@ func main() {
 	}
 	check := func(desc, class string, authentic bool, revoked bool, v verdict) {
 		run.Eval(1)
+		desc += " " + v.shape
 		rp := &report.Replay{Case: map[string]any{"case": desc, "expected_authentic": authentic, "observed": fmt.Sprintf("%+v", v)}}
 		ok := true
 		if authentic {
@@ -202,19 +222,22 @@ func main() {
 		for _, which := range []string{"this", "other"} {
 			for sn, st := range statuses {
 				sg, which, st := sg, which, st
-				v := protocol(func(leaf *pki.CA, serial *big.Int) []byte {
-					s := serial
-					if which == "other" {
-						s = new(big.Int).Add(serial, big.NewInt(1))
+				for forceShape = 0; forceShape < 4; forceShape++ {
+					v := protocol(func(leaf *pki.CA, serial *big.Int) []byte {
+						s := serial
+						if which == "other" {
+							s = new(big.Int).Add(serial, big.NewInt(1))
+						}
+						return mkResp(sg, leaf, s, st)
+					})
+					desc := fmt.Sprintf("signer=%s serial=%s status=%s", sg.Name, which, sn)
+					check(desc, "signer-"+sg.Name+".serial-"+which, sg.Authorised && which == "this", st == ocsp.Revoked, v)
+					run.Count("matrix_cells", 1)
+					if (sg.Name == "issuer" || sg.Name == "client-own-certificate") && forceShape == 3 {
+						run.Sample(map[string]any{"cell": desc + " " + v.shape, "observed": fmt.Sprintf("%+v", v)})
 					}
-					return mkResp(sg, leaf, s, st)
-				})
-				desc := fmt.Sprintf("signer=%s serial=%s status=%s", sg.Name, which, sn)
-				check(desc, "signer-"+sg.Name+".serial-"+which, sg.Authorised && which == "this", st == ocsp.Revoked, v)
-				run.Count("matrix_cells", 1)
-				if sg.Name == "issuer" || sg.Name == "client-own-certificate" {
-					run.Sample(map[string]any{"cell": desc, "observed": fmt.Sprintf("%+v", v)})
 				}
+				forceShape = -1
 			}
 		}
 	}
